@@ -13,7 +13,7 @@ Proof. exact sys_start_after_delay. Qed.
 
 (** a replaced (or otherwise canceled-while-waiting) job never starts, never gets a scheduler, never runs a task *)
 Theorem C07_replaced_never_runs : ∀ s evs id j,
-  reach s → get_job s id = Some j →
+  reach s → Forall no_restart evs → get_job s id = Some j →
   ∃ j', get_job (exec s evs) id = Some j' ∧ job_snapshot j' = job_snapshot j
         ∧ (j_canceled j = true → j_canceled j' = true) ∧ (j_completed j = true → j_completed j' = true)
         ∧ (is_Some (j_start j) → is_Some (j_start j'))
